@@ -17,6 +17,7 @@ def run(repo, res, tier):
     an = langrules.analyse(repo)
     langrules.rule_s1(repo, res, an, "own")
     langrules.rule_s2(repo, res, an)
+    langrules.rule_q1(repo, res, an)
     encrules.rule_w1(repo, res, which=("quoted", "flags"))
     encrules.rule_d1(repo, res)
     timerules.rule_r(repo, res)
